@@ -141,10 +141,10 @@ PROPS["C14"] = {
     "engine": "sel", "level": "exploration",
     "rule": "seeded package layouts (0-4 modules x 0-3 classes, MODE_NAME/DISABLED/DEFAULT flags, helper classes, duplicate names, several defaults, 4 kinds of import failure, raising constructors, missing package, namespace package, dotted package name), FMS attached or not, permuted directory listing; then seeded start/periodic/disable sequences with stray calls and run() periods ended by the driver station or endCompetition, with chooser / 'Auto Selector' writes between and during periods; non-trivial = a period with an active mode among >= 2 healthy modes, or a discovery fault; distinct = distinct (discovery outcome, op, active?) sequence",
     "level_text": "seeded search over package layouts, discovery faults and call/selection histories on the real selector, SendableChooser, SmartDashboard and HAL notifier; discovery and every delivered callback checked against the property's sentences; sampling, not proof",
-    "level_note": "trusted: importlib on real files in a per-run scratch directory, WPILib SendableChooser/SmartDashboard, HAL simulation; mode callbacks never raise here (that is C07's); start() twice without disable() and periodic() before the first start() are outside the quantifier",
+    "level_note": "trusted: importlib on real files in a per-run scratch directory, WPILib SendableChooser/SmartDashboard, HAL simulation; mode callbacks never raise here (that is C07's); periodic() before the first start() is outside the quantifier",
     "quick": {"runs": 4000, "wall_s": 150}, "thorough": {"runs": 200000, "wall_s": 1500},
     "probes_expected": ["startup_raised_as_required", "startup_tolerated_faults_under_fms", "period_with_mode", "period_without_mode", "run_period_with_mode", "zero_iteration_run",
-                        "stray_periodic_while_inactive", "stray_disable_while_inactive"],
+                        "stray_periodic_while_inactive", "stray_disable_while_inactive", "start_without_disable"],
     "state_measure": "(op, mode active?, started before?) states and their successions, hashed",
     "real_vs_stub": {"real": ["robotpy_ext.autonomous.selector.AutonomousModeSelector", "importlib/inspect on real module files", "wpilib SendableChooser + SmartDashboard + ntcore", "NotifierDelay + HAL notifier (run())"],
                      "simulated": ["the autonomous package contents (generated)", "directory listing order (selector.glob permuted)", "driver station, FMS flag", "dashboard selections", "who wakes the notifier"]},
